@@ -407,3 +407,15 @@ func (c *Ctx) infoFor(f *ssa.Function) *types.Info {
 }
 
 func typesPtr(t *ssa.Type) types.Type { return types.NewPointer(t.Type()) }
+
+// sizes: the type sizes of the configuration being analysed.
+func (c *Ctx) sizes() types.Sizes {
+	arch := c.GOARCH
+	if arch == "" {
+		arch = "amd64"
+	}
+	if s := types.SizesFor("gc", arch); s != nil {
+		return s
+	}
+	return types.SizesFor("gc", "amd64")
+}
